@@ -91,6 +91,15 @@ func newWorld() *world {
 	addB("garbage: unknown tag", []byte{0x45, 0x01, 0x02})
 	addB("garbage: class definition then end", full[:12])
 	addB("empty input", []byte{})
+	// a class definition with a field the Go type lacks: its value (an instance of an unknown class) is skipped
+	unk := &rh.Class{Name: "com.example.Unknown11", Fields: []string{"q"}}
+	r11 := &rh.Class{Name: w.nm["R11"], Fields: []string{"a", "zzExtra", "s", "l"}}
+	ext := &rh.Value{K: rh.Object, Class: r11, Elems: []*rh.Value{rh.IntV(5), {K: rh.Object, Class: unk, Elems: []*rh.Value{rh.IntV(1)}}, rh.StringV("x"), rh.NullV()}}
+	withExtra := rh.Encode(ext)
+	addB("struct with an unknown field holding an unknown-class object", withExtra)
+	addB("garbage: the same, truncated inside the unknown field", withExtra[:len(withExtra)-6])
+	addB("stale: typed list of an unregistered type at top level", []byte{0x71, 0x08, '[', 'n', 'o', 's', 'u', 'c', 'h', 'T', 0x91})
+	addB("stale: instance of an unregistered class at top level", append([]byte{'C', 0x07, 'N', 'o', 'S', 'u', 'c', 'h', 'T', 0x91, 0x01, 'q', 0x60}, 0x91))
 	for _, v := range w.vals {
 		w.snapV = append(w.snapV, render(v))
 	}
@@ -353,10 +362,10 @@ var kind11Names = []string{"Encoder", "Decoder", "Serializer"}
 func init() {
 	core.Register(&core.Prop{
 		ID: "C11", Level: "model_checking",
-		Rule:        "Explicit-state breadth-first search over histories of operations on one Encoder, one Decoder and one Serializer: one-shot encodes of 9 values (incl. shared-pointer graphs, typed lists, a long string, an unencodable value that fails half-way), WriteTo with a writer failing at Write #1 / #3, one-shot decodes of 18 byte strings (the library's own renderings, a reference rendering with a type back-reference, inputs that only resolve against stale type/class/reference tables, truncated and unknown-tag garbage, empty input), ReadFrom, streaming writes and reads, Reset. Successor = replay on a fresh instance + one operation; states deduplicated by the instance's private fields (verif hooks); searched to depth 3 (quick) / 5 (thorough) and, for the one-shot sub-alphabet, to a fixpoint. Oracle: every one-shot operation in every history returns exactly what it returns on a freshly constructed instance (bytes, denoted value and type, normalised error or panic); byte slices returned earlier are unchanged; after every operation the values, input bytes and the caller's complete name and type maps are unchanged. Non-trivial = history of length >= 2; distinct = distinct (state, operation) pairs.",
+		Rule:        "Explicit-state breadth-first search over histories of operations on one Encoder, one Decoder and one Serializer: one-shot encodes of 9 values (incl. shared-pointer graphs, typed lists, a long string, an unencodable value that fails half-way), WriteTo with a writer failing at Write #1 / #3, one-shot decodes of 18 byte strings (the library's own renderings, a reference rendering with a type back-reference, inputs that only resolve against stale type/class/reference tables, truncated and unknown-tag garbage, empty input), ReadFrom, streaming writes and reads, Reset. Successor = replay on a fresh instance + one operation; states deduplicated by the instance's private fields (verif hooks); searched to depth 4 (quick) / 5 (thorough) and, for the one-shot sub-alphabet, to a fixpoint. Oracle: every one-shot operation in every history returns exactly what it returns on a freshly constructed instance (bytes, denoted value and type, normalised error or panic); byte slices returned earlier are unchanged; after every operation the values, input bytes and the caller's complete name and type maps are unchanged. Non-trivial = history of length >= 2; distinct = distinct (state, operation) pairs.",
 		Assumptions: []string{"maps in inputs have at most one entry (Go map order would make bytes incomparable)", "state key = private tables of the instance; equal keys are assumed to have equal futures"},
 		Units: func(tier string) []core.Unit {
-			depth := tierPick(tier, 3, 5)
+			depth := tierPick(tier, 4, 5)
 			var us []core.Unit
 			for kind := 0; kind < 3; kind++ {
 				kind := kind
